@@ -38,14 +38,24 @@ pub const fn mulsign(x: P32E2, y: P32E2) -> P32E2 {
 
 mod kernel {
     use super::*;
-    // TODO: |n| > 111
+    // 2^n, saturating at maxpos = 2^120 and minpos = 2^-120
     pub const fn pow2i(mut n: i32) -> P32E2 {
         let sign = n.is_negative();
+        if n > 120 {
+            n = 120;
+        } else if n < -120 {
+            n = -120;
+        }
         if sign {
             n = -n;
         }
         let k = n >> 2;
-        let ex: u32 = ((n & 0x3) as u32) << (27 - k);
+        // for k > 27 the regime leaves room for only part of the exponent field
+        let ex: u32 = if k <= 27 {
+            ((n & 0x3) as u32) << (27 - k)
+        } else {
+            ((n & 0x3) as u32) >> (k - 27)
+        };
         let ui = (0x7FFF_FFFF ^ (0x3FFF_FFFF >> k)) | ex;
 
         if sign {
